@@ -102,6 +102,18 @@ CHECKS = {
         note="Window-completeness boundary i in {p-1,p} is a don't-care; ties admit any minimiser; patience <= max_iter only; tqdm replaced by a disabled bar; trusted: jax.random.permutation, optax.apply_updates, lax loops. The open finding minibatch:same-partition-every-iteration (carried key never advanced; a fix would break a pinned golden test) reproduces on /repo and is printed as KNOWN-FINDING.",
         ref="3/C20",
     ),
+    "C07": dict(
+        technique="exhaustive product over configuration lattices plus exhaustive operation-history enumeration (append_epoch / sample_next_epoch / sample_all_epochs) on the real Engine with tracer kernels; reference lifecycle generator as oracle",
+        text="Every valid epoch schedule up to 2 (thorough 3) epochs after the initial one is run on real Engines built through both EngineBuilder and the Engine constructor, crossed with durations, valid thinnings and every chunk size dividing the durations, every kernel-sequence configuration (1-2 kernels, mixin or plain, needs_history on/off) and 1-3 chains. Every history of append_epoch / sample_next_epoch / sample_all_epochs from every construction prefix is run for every epoch-type sequence. The decoded call log of every kernel and chain (tracer kernels keep an event log in their kernel state) is compared call by call with a reference lifecycle generator, and all interleavings must give identical logs and chains.",
+        note="Trusted: the tracer kernels and liesel's DictInterface. Wildcards: epoch clock inside start/end/tune calls, key words, history given to kernels that did not ask for one. Interleavings use one duration/thinning assignment per type sequence; durations <= 6 ({1,2,3} for length 2 in quick, {1,3} for length 3).",
+        ref="3/C07",
+    ),
+    "C08": dict(
+        technique="exhaustive configuration product on the real Engine and chain classes with value-encoded deterministic kernels; reference chain as oracle and differential comparison across chunkings",
+        text="Deterministic key-ignoring kernels write values that encode key, element, chain, epoch and iteration; positions, posterior positions, transition infos, kernel states and generated quantities are compared element by element with the reference over all valid schedules up to 2 (thorough 3) epochs x durations x thinnings x every chunk (constructor and builder), tracked-key selections (every position_keys subset and included/excluded pair) x 3 leaf-shape assignments x flags (store_kernel_states, quantity generator, minimize) x 1-3 chains; results must be identical across chunk sizes. ListEpochChain and EpochChainManager are also checked alone over all compositions of every duration <= 8 (thorough 10) with every thinning and all epoch sequences of length <= 3.",
+        note="Values use the engine's epoch clock, validated by the C07 oracle in the same run; DictInterface trusted; posterior accessors only called when a posterior epoch exists; selection/flags/shape products use 2-3 fixed schedules.",
+        ref="3/C08",
+    ),
 }
 
 PENDING_REASON = "check not built yet in this session (design in DESIGN.md section 3); not claimed until it exists and has caught a seeded defect"
